@@ -177,6 +177,28 @@ def check (tol : Rat) (effort : Nat) (lm : LinModel (Ext Rat)) (sm : StdModel (E
     match fwdBad with
     | some v => v
     | none =>
+    -- ---- direction: the standard form is a MINIMISATION of `c·y`; for a `max` model minimising it must maximise the
+    -- original objective.  Semantic test on two feasible points with different objective; the recorded flag otherwise.
+    let isMax := lm.optType == OptType.max
+    let dirBad : Option Sexp :=
+      match origFeas.head? with
+      | none => none
+      | some x1 =>
+        match origFeas.find? (fun x2 => objOrig o x2 != objOrig o x1) with
+        | none => none
+        | some x2 =>
+          let z1 := dot sobj (fwd x1)
+          let z2 := dot sobj (fwd x2)
+          let origLess := objOrig o x1 < objOrig o x2
+          let stdLess := z1 < z2
+          -- min: same order; max: reversed order
+          if (if isMax then stdLess == origLess else stdLess != origLess) then
+            some (viol "objective-direction" [encQs x1, encQs x2, encQ z1, encQ z2, encQ (objOrig o x1), encQ (objOrig o x2)])
+          else none
+    match dirBad with
+    | some v => v
+    | none =>
+    if sm.flip != isMax && lm.optType != OptType.satisfy then viol "objective-direction" [.atom "flip-flag", .atom (if sm.flip then "flip" else "noflip"), .atom lm.optType.name] else
     -- ---- backward
     let structCols := (List.range ns).filter (fun j => roles.getD j .slack != .slack)
     let pvals := dedupQ ([0, 1, 2, 1/2, 3] ++ (bnds.filter (· > 0)).take 3)
